@@ -17,7 +17,10 @@ The model follows the Python statement by statement:
 Loops: `_propagate`'s `while` gets fuel `pending + total use-list length`, which decreases by one
 per iteration (`CompleteFinal.lean: propagate_pending_nil` proves that the fuel always suffices);
 `_path_to_root` gets fuel `len(proof_forest)` (enough while the forest is acyclic; Python would
-loop forever otherwise); `explain`'s recursion gets explicit fuel and answers `Err.fuel` when it
+loop forever otherwise): running out is an error outcome, never a silently shortened path --
+`pathComplete` tells whether the walk reached a root; `explain` then answers `Err.fuel`, and a
+`merge` whose `_add_edge_proof_forest` ran out sets the flag `State.stuck` (the driver answers
+`(err fuel)` for that and every later operation); `explain`'s recursion gets explicit fuel and answers `Err.fuel` when it
 runs out (Python: RecursionError).  Dictionary reads inside `merge`/`_propagate` that cannot miss
 (every constant is `add_var`ed first, lists exist for every representative) use a default
 instead of `KeyError`; `test`/`explain` on a constant never entered answer `Err.key`.
@@ -77,6 +80,8 @@ structure State where
   lookup : List ((Cst × Cst) × CEq) := []
   forest : Forest := []
   pending : List Label := []
+  /-- set when a `_path_to_root` walk inside `merge` exhausted its fuel (Python: no return) -/
+  stuck : Bool := false
   deriving Repr
 
 def State.init : State := {}
@@ -100,6 +105,18 @@ def pathGo (f : Forest) : Nat → Cst → List (Cst × Option Label)
     match aget f x with
     | some (some (p, l)) => (p, some l) :: pathGo f n p
     | _ => []
+
+/-- Did the walk of `pathGo` stop at a root (`proof_forest[x] is None`) rather than by running
+out of fuel?  (A constant without an entry is treated like a root; callers check the keys.) -/
+def pathComplete (f : Forest) : Nat → Cst → Bool
+  | 0, x =>
+    match aget f x with
+    | some (some _) => false
+    | _ => true
+  | n + 1, x =>
+    match aget f x with
+    | some (some (p, _)) => pathComplete f n p
+    | _ => true
 
 /-- `_path_to_root(x)` = `[(x, None), (p1, l1), ..., (root, lk)]` -/
 def pathToRoot (f : Forest) (x : Cst) : List (Cst × Option Label) :=
@@ -131,7 +148,8 @@ def useStep (rb : Cst) (s : State) (eq : CEq) : State :=
 
 /-- The body of `if rep_a != rep_b` after the swap: class `ra` (of `a`) is moved into `rb`. -/
 def unionStep (s : State) (a b ra rb : Cst) (E : Label) : State :=
-  let s := { s with forest := addEdge s.forest a b E }
+  let s := { s with stuck := s.stuck || !pathComplete s.forest s.forest.length a,
+                    forest := addEdge s.forest a b E }
   let ca := clsOf s ra
   let s := { s with rep := ca.foldl (fun rep c => aset rep c rb) s.rep }
   let s := { s with cls := adel (aset s.cls rb (clsOf s rb ++ ca)) ra }
@@ -188,7 +206,7 @@ def mergeComb (s : State) (a1 a2 a : Cst) : State :=
 inductive Err where
   | key      -- KeyError: constant never entered
   | assert   -- AssertionError "explain: s and t are not in the same tree"
-  | fuel     -- recursion bound of the model exhausted (Python: RecursionError)
+  | fuel     -- a fuel bound of the model exhausted (Python: RecursionError / endless loop)
   deriving DecidableEq, Repr
 
 /-- `test(t1, t2)` -/
@@ -214,6 +232,7 @@ def labelsOf (p : Path) : List Label := p.filterMap (·.2)
 /-- `cur_path` of `explain(s, t)`. -/
 def curPath (f : Forest) (a b : Cst) : Except Err (List Label) :=
   if (aget f a).isNone ∨ (aget f b).isNone then .error .key else
+  if pathComplete f f.length a = false ∨ pathComplete f f.length b = false then .error .fuel else
   let sp := pathToRoot f a
   let tp := pathToRoot f b
   if nodeAt sp (sp.length - 1) ≠ nodeAt tp (tp.length - 1) then .error .assert else
